@@ -149,6 +149,8 @@ type Term struct {
 	C    uint64 // constant payload: BV value (masked), bool (0/1), FP bits
 	Name string // var / UF name
 	HasF bool   // mentions floating point somewhere below
+	vars     []int // variable ids below (lazily computed)
+	varsDone bool
 }
 
 func (t *Term) IsConst() bool { return t.Op == OpConst }
